@@ -3,6 +3,7 @@ package main
 import (
 	"fmt"
 	"math"
+	"strconv"
 	"strings"
 
 	"github.com/tdewolff/canvas"
@@ -11,15 +12,22 @@ import (
 
 // regress replays the minimised inputs of the repaired C10 defects first, under the same failure
 // kinds the generators use: a recurrence is reported whatever the seed generates.
+// regressHung: a regression input did not return; the rest of the run is skipped (see guard).
+var regressHung bool
+
 func regress(c *hc.Ctx) {
 	P := func(s string) *canvas.Path { return canvas.MustParseSVGPath(s) }
 	run := func(kind, desc string, f func() string) {
+		if regressHung {
+			return
+		}
 		c.Evals++
 		c.Count("regress:" + kind)
 		var bad string
 		msg, hung := guard(func() { bad = f() })
 		switch {
 		case hung:
+			regressHung = true // the abandoned goroutine keeps spinning (and possibly allocating): stop here
 			fail(c, "hang:"+kind, desc+" did not return (watchdog)", map[string]any{"regress": desc})
 		case msg != "":
 			fail(c, kind, desc+" panicked: "+msg, map[string]any{"regress": desc})
@@ -235,8 +243,48 @@ func regress(c *hc.Ctx) {
 		c.Evals++
 		c.Count("regress:panic:And:impossible:-first-segment-became-vertica")
 		msg, _ := guard(func() { P("M0 0L-2 2M2 2L-5 -8.5").And(P(sub + sub + sub + sub)) })
+		if !strings.Contains(msg, "first segment became vertical") {
+			// since the batch-5 sweep repairs the input above no longer reaches the split; this one does
+			// (exact array of corpus/C10/sweep-first-segment-vertical-settle.json)
+			msg, _ = guard(func() {
+				hexPath("3ff0000000000000 4156d0a880000000 412aa0f200000000 3ff0000000000000 4000000000000000 4156d0adc0000000 412aa0d000000000 4000000000000000 4030000000000000 4031000000000000 402c000000000000 3f800282c2615cdc 4008000000000000 4156d0a8af12fbc2 412aa0a800000000 4030000000000000 4000000000000000 4156d0aa40000000 412aa10c00000000 4000000000000000 4040000000000000 4156d0a880000000 412aa0f200000000 4040000000000000 3ff0000000000000 4156d0bf40000000 412aa08000000000 3ff0000000000000 4000000000000000 4156d0c1c0000000 412aa08000000000 4000000000000000 4000000000000000 4156d0c1c0000000 412aa09400000000 4000000000000000 4040000000000000 4156d0bf40000000 412aa08000000000 4040000000000000 3ff0000000000000 4156d0a880000000 412aa0f200000000 3ff0000000000000 4000000000000000 4156d0adc0000000 412aa0d000000000 4000000000000000 4030000000000000 4031000000000000 402c000000000000 3f800282c2615cdc 4008000000000000 4156d0a8af12fbc2 412aa0a800000000 4030000000000000 4000000000000000 4156d0aa40000000 412aa10c00000000 4000000000000000 4040000000000000 4156d0a880000000 412aa0f200000000 4040000000000000 3ff0000000000000 4156d0bf40000000 412aa08000000000 3ff0000000000000 4000000000000000 4156d0c1c0000000 412aa08000000000 4000000000000000 4000000000000000 4156d0c1c0000000 412aa09400000000 4000000000000000 4040000000000000 4156d0bf40000000 412aa08000000000 4040000000000000 3ff0000000000000 4156d0bf40000000 412aa08000000000 3ff0000000000000 4030000000000000 4148e79c857c2839 41309a6858fd7026 0000000000000000 4000000000000000 0000000000000000 0000000000000000 4030000000000000 4000000000000000 4000000000000000 c008000000000000 4000000000000000 4000000000000000 0000000000000000 0000000000000000 4000000000000000 4040000000000000 4156d0bf40000000 412aa08000000000 4040000000000000 3ff0000000000000 4156d0bf40000000 412aa08000000000 3ff0000000000000 4020000000000000 0000000000000000 c02f4fdf3b645a1d c010000000000000 4018000000000000 c010000000000000 4018000000000000 4020000000000000 4040000000000000 4156d0bf40000000 412aa08000000000 4040000000000000").Settle(canvas.EvenOdd)
+			})
+		}
 		if strings.Contains(msg, "first segment became vertical") {
 			fail(c, "panic:And:impossible:-first-segment-became-vertica", "And panicked: "+msg, map[string]any{"regress": "(M0 0L-2 2M2 2L-5 -8.5).And(4 x " + sub + ")"})
 		}
 	}
+	// fbfcb63: Path.offset scaled up an arc whose offset radius is zero; Offset then never returned
+	// (exact array of corpus/C10/hang-offset.json: the decimal form does not survive the lexer's rounding)
+	run("Offset", "open path of elliptic arcs running a full ellipse .Offset(0.5)", func() string {
+		hexPath("3ff0000000000000 3ff8000000000000 3ff8000000000000 3ff0000000000000 4030000000000000 4008000000000000 4004000000000000 3fb4320fd1065080 4000000000000000 bcc3000000000000 bcb0000000000000 4030000000000000 4030000000000000 3ff0000000000001 3fe0000000000001 3fe0c152382d7368 0000000000000000 bfcdc5e813de70a6 3fd1d9f8d1765b72 4030000000000000 4030000000000000 3ff0000000000001 3fe0000000000001 3fe0c152382d7368 0000000000000000 3ff566b13f69bdcc 3ff47477d5aa0585 4030000000000000 4030000000000000 3ff0000000000000 3fe0000000000000 3fe0c152382d7368 0000000000000000 3ff91f6e41e58be0 3feffbf34298dd50 4030000000000000 4030000000000000 3ff0000000000000 3fe0000000000000 3fe0c152382d7368 0000000000000000 bc94000000000000 bc90000000000000 4030000000000000 4030000000000000 3ff0000000000000 3fe0000000000000 3fe0c152382d7368 0000000000000000 bfcdc5e813de7096 3fd1d9f8d1765b77 4030000000000000 4030000000000000 3ff0000000000000 3fe0000000000000 3fe0c152382d7368 0000000000000000 3ff91f6e41e58be0 3feffbf34298dd52 4030000000000000 4030000000000000 3ff0000000000000 3fe0000000000000 3fe0c152382d7368 0000000000000000 3fed66b13f69bdc8 3fca64e985f77cb6 4030000000000000 4040000000000000 3ff8000000000000 3ff8000000000000 4040000000000000").Offset(0.5, 0.01)
+		return ""
+	})
+	// ac9673c: collinear segments got their end points ordered inconsistently ("right-endpoint not part of status")
+	{
+		c.Evals++
+		c.Count("regress:panic:Stroke:right-endpoint-not-part-of-status,-proba")
+		msg, _ := guard(func() {
+			hexPath("3ff0000000000000 0000000000000000 0000000000000000 3ff0000000000000 4000000000000000 c000f876ccdf6cde c00d64d51e0db1c4 4000000000000000 4000000000000000 0000000000000000 0000000000000000 4000000000000000 4000000000000000 bff66262ad39b3cd c00362a8cd012be1 4000000000000000").Stroke(0.3, canvas.RoundCap, canvas.ArcsJoin, 0.01)
+		})
+		if strings.Contains(msg, "right-endpoint not part of status") {
+			fail(c, "panic:Stroke:right-endpoint-not-part-of-status,-proba", "Stroke panicked: "+msg, map[string]any{"regress": "M0 0L-2.1213203435596446 -3.6742346141747664L0 0L-1.399019886647909 -2.423173524473427 .Stroke(0.3, RoundCap, ArcsJoin, 0.01)"})
+		}
+	}
+	// bd4354e: the sweep re-entered its event loop for ever on repeated subpaths
+	run("Settle+repeated-subpaths", "seed-63 path (9 subpaths, repeated) .Settle(EvenOdd)", func() string {
+		hc.Try(func() {
+			P("M0 0L0.4930000000000001 -5.3665L-1.7465000000000002 -0.3167500000000001C-0.25349999999999995 -3.68325 -1 -2 -1 -2M-1.7465000000000002 -0.3167500000000001L13.707 5.005C-0.25349999999999995 -3.68325 0.4930000000000001 -5.3665 13.707 5.005zM-1.7465000000000002 -0.3167500000000001Q-0.25349999999999995 -3.68325 -1 -2M0 0L0.4930000000000001 -5.3665L-1.7465000000000002 -0.3167500000000001C-0.25349999999999995 -3.68325 -1 -2 -1 -2M-1.7465000000000002 -0.3167500000000001L13.707 5.005C-0.25349999999999995 -3.68325 0.4930000000000001 -5.3665 13.707 5.005zM0 0L0.4930000000000001 -5.3665L-1.7465000000000002 -0.3167500000000001C-0.25349999999999995 -3.68325 -1 -2 -1 -2M-0.25349999999999995 -3.68325C-1 -2 -1.7465000000000002 -0.3167500000000001 -1 -2zM-0.25349999999999995 -3.68325L-1.7465000000000002 -0.3167500000000001Q18.057 -15.273 -1 -2zM-0.25349999999999995 -3.68325L-1 -2L0 0z").Settle(canvas.EvenOdd)
+		})
+		return "" // a panic of the sweep here is a separate class; only termination is at stake
+	})
+}
+
+func hexPath(s string) *canvas.Path {
+	var d []float64
+	for _, t := range strings.Fields(s) {
+		u, _ := strconv.ParseUint(t, 16, 64)
+		d = append(d, math.Float64frombits(u))
+	}
+	return canvas.NewPathFromData(d)
 }
